@@ -387,6 +387,7 @@ func udpMonitors(ctx *Ctx, prop string, cs *udpCaseSpec, obs []udpOpObs, shutdow
 					}
 					if len(want) <= 65469-19 { // certainly fits every cipher and address form
 						ctx.Monitor("C03/reply-dropped", fmt.Sprintf("a %d-byte reply was dropped with %s", len(want), rp.Status), rep)
+						ctx.Monitor("C04/datagram-for-the-association-not-delivered", fmt.Sprintf("a %d-byte datagram that arrived at the association's source address from %s was not delivered to its client (%s)", len(want), targetKinds[op.AKind].name, rp.Status), rep)
 					}
 					continue
 				}
@@ -401,6 +402,7 @@ func udpMonitors(ctx *Ctx, prop string, cs *udpCaseSpec, obs []udpOpObs, shutdow
 			}
 			if len(ob.Replies) != len(op.Replies) {
 				ctx.Monitor("C03/reply-lost", fmt.Sprintf("%d of %d replies were reported", len(ob.Replies), len(op.Replies)), rep)
+				ctx.Monitor("C04/datagram-for-the-association-not-delivered", fmt.Sprintf("%d of the %d datagrams the target sent to the association's source address reached the client", len(ob.Replies), len(op.Replies)), rep)
 			}
 			if ob.Unreported > 0 {
 				ctx.Monitor("C16/reply-without-ok-report", "a datagram reached the client without an OK AddPacketFromTarget report", rep)
